@@ -22,3 +22,9 @@ pub fn root() -> std::path::PathBuf {
 pub fn rooted(rel: &str) -> String {
     root().join(rel).to_string_lossy().to_string()
 }
+
+/// The repository under test: `/repo`, except in the sensitivity farm (`tools/mutant_farm.py`), which works on
+/// private copies of both trees and sets `VERIF_REPO` (the copied manifests are rewritten the same way).
+pub fn repo_root() -> String {
+    std::env::var("VERIF_REPO").unwrap_or_else(|_| "/repo".to_string())
+}
